@@ -15,6 +15,7 @@ Inductive atom :=
 | ASym (n : N)
 | ANoValue
 | AEllipsis
+| AEmptyTuple
 | AOpaque (n : N).
 
 (* A reference is an inline leaf or a pointer into a heap. *)
